@@ -369,6 +369,10 @@ def local_is_field_value(mir, body, local, adt_sub, field, depth=0, seen=None):
             break
         b, kind, x = ds[0]
         if kind == 'call':
+            cal = mir.bodies.get(cname(x)) if mir is not None else None
+            if cal is not None and cal.kind != 'Closure':
+                # a crate helper whose return value is that field's value (an accessor): `fn requested(options) -> Option<..> { options.validate.map(..) }`
+                return local_is_field_value(mir, cal, 0, adt_sub, field, depth + 1, seen)
             if not (method(cname(x)) in TRANSPARENT or cname(x).endswith('::branch')):
                 break
             nxt = None
